@@ -17,6 +17,7 @@ pub use crate::vworld::*;
 pub use crate::vstdx::*;
 pub use crate::vspec_nonce::*;
 pub use crate::vspec_codec::*;
+pub use crate::vspec_batch::*;
 verus! {
 //@module_serves ALL
 
@@ -793,10 +794,6 @@ pub proof fn lemma_bf_collected<C: Ciphersuite>(m: Map<Identifier<C>, BindingFac
 }
 
 
-// multiscalar multiplication  sum_i e_i * s_i  (the result assumed for scalar_mul.rs, DESIGN 4 C01 "Assumed / bounded")
-pub open spec fn spec_msm<C: Ciphersuite>(s: Seq<Scalar<C>>, e: Seq<Element<C>>) -> Element<C> decreases s.len()
-{ if s.len() == 0 || e.len() == 0 { e0::<C>() } else { eadd::<C>(spec_msm::<C>(s.drop_last(), e.drop_last()), emul::<C>(e.last(), s.last())) } }
-
 // RFC 9591 4.5 compute_group_commitment over the first n items: sum of hiding commitments, sum of binding commitments * rho
 pub open spec fn gc_hiding<C: Ciphersuite>(items: Seq<(Identifier<C>, crate::round1::SigningCommitments<C>)>, n: int) -> Element<C> decreases n
 { if n <= 0 { e0::<C>() } else { eadd::<C>(gc_hiding::<C>(items, n - 1), items[n - 1].1.hiding.0.0) } }
@@ -818,9 +815,7 @@ pub open spec fn spec_sigshare_ok<C: Ciphersuite>(z: Scalar<C>, r_share: Element
 pub open spec fn spec_challenge<C: Ciphersuite>(r: Element<C>, vk: Element<C>, msg: Seq<u8>) -> Result<Scalar<C>, Error<C>>
 { if r == e0::<C>() || vk == e0::<C>() { Err(Error::GroupError(GroupError::InvalidIdentityElement)) } else { Ok(C::spec_H2(enc_el::<C>(r) + enc_el::<C>(vk) + msg)) } }
 
-// RFC 9591 3.? prime-order Schnorr verification with cofactor:  h * (z G - c A - R) == 0
-pub open spec fn spec_verify_prehashed<C: Ciphersuite>(vk: Element<C>, c: Scalar<C>, sig: Signature<C>) -> Result<(), Error<C>>
-{ if emul::<C>(esub::<C>(esub::<C>(gmul::<C>(sig.z), emul::<C>(vk, c)), sig.R), GG::<C>::s_cofactor()) == e0::<C>() { Ok(()) } else { Err(Error::InvalidSignature) } }
+
 
 
 // ---- the signing session described by a signing package and a group key (RFC 9591 5.2 / 5.3) ----
